@@ -84,6 +84,37 @@ var specs = map[string]spec{
 		Assumptions: append([]string{"this check covers the core engine (nbio.Engine); nbhttp.Engine.Stop/Shutdown is covered in the e2e world when claimed there",
 			"goroutines are attributed to the engine by the function that started them (nbio., taskpool., timer.)"}, assumeKernel...),
 	},
+	"C06": {
+		World: "stream", Level: "fault_enumeration", QuickS: 30, ThoroughS: 600,
+		Rule: "cases = pipelined sequences of 1-3 HTTP/1.x requests or responses from a grammar (methods, targets, 1.0/1.1, 0-4 headers with spacing variants, Content-Length / chunked bodies with extensions and declared trailers) optionally corrupted by 1-2 byte-level mutations (flip, delete, insert, duplicate, truncate, set to CR/LF/colon/...); per stream the transport's segmentation is ENUMERATED: one piece (reference), every single cut position, byte-at-a-time, plus 16 (quick) / 48 (thorough) seeded multi-cut segmentations; the recording Processor's event log and the accept/reject verdict must equal the reference; non-trivial = stream with a body or >= 2 messages; distinct = distinct stream bytes",
+		Real: []string{"nbhttp.Parser (parser.go, state.go, table.go) - transformed real code, driven through its Processor interface"},
+		Stub: []string{"transport: in-memory connection; segmentation chosen by the harness", "Processor: recording implementation (observation seam)", "allocators: ownership tracker installed as mempool.DefaultMemPool / BodyAllocator"},
+		Assumptions: []string{"'same rejection' = both feeds are rejected and report identical events before the rejection; the error text is not compared", "the parser is driven like Engine.DataHandler drives it: first error => CloseAndClean => no more Parse",
+			"ReadLimit is off in this check (it makes acceptance depend on segmentation by design; C08 covers it)", "single-cut enumeration is complete per generated stream; the stream space itself is sampled"},
+	},
+	"C07": {
+		World: "stream", Level: "exploration", QuickS: 25, ThoroughS: 600,
+		Rule: "cases = pipelined sequences of 1-4 well-formed requests (through the real ServerProcessor and a recording http.Handler) or responses (recording Processor) restricted to forms both implementations are documented to accept identically (token header names, visible-ASCII values, Content-Length or chunked on 1.1, declared trailers, Connection variants), fed byte-at-a-time (exact boundaries) or in larger reads; reference = http.ReadRequest / http.ReadResponse over the same bytes; compared: start line, host, header multimap modulo OWS (Host / Transfer-Encoding / Trailer bookkeeping mapped explicitly), body bytes, trailers, close decision, end offset of every message; non-trivial = >= 2 pipelined messages or a chunked body; distinct = distinct stream bytes",
+		Real: []string{"nbhttp.Parser, nbhttp.ServerProcessor, nbhttp.BodyReader (transformed real code)", "net/http as reference parser (untransformed std)"},
+		Stub: []string{"transport: in-memory connection", "allocators: ownership tracker"},
+		Assumptions: []string{"candidly: the deciding power is a differential oracle over generated inputs; the simulator contributes segmentation, pipelining, seeding, replay and shrinking only",
+			"a generated stream that net/http itself rejects is outside the common ground and is skipped (counted as probe)", "the status reason phrase, Host promotion and Transfer-Encoding/Trailer removal are normalised in the comparator"},
+	},
+	"C08": {
+		World: "stream", Level: "exploration", QuickS: 25, ThoroughS: 600,
+		Rule: "cases = (a) a fixed catalogue of malformed framing metadata (non-numeric / negative / overflowing / signed Content-Length, unsupported or repeated Transfer-Encoding, non-hex / overflowing / empty chunk sizes, a missing CR or LF at each position) swept in three segmentations, (b) grammar messages corrupted by 0-4 byte-level mutations or oversize fields, (c) random garbage; ReadLimit in {0,16..4096}, MaxHTTPBodySize in {0,1..1000}, transport read size in {1,2,7,64,512,all}; oracle: no recovered or unrecovered panic (log seam), nothing observed after the first error and a later Parse reports closed, catalogue entries rejected and never delivered, pooled bytes held (tracking allocator) bounded by ReadLimit + one read + body bound, no delivered or pending body above MaxHTTPBodySize; non-trivial = corrupted / catalogue / garbage input that reaches at least one parse event",
+		Real: []string{"nbhttp.Parser, nbhttp.ServerProcessor, nbhttp.BodyReader (transformed real code)"},
+		Stub: []string{"transport: in-memory connection with byte-level corruption", "allocators: ownership tracker (also measures retained bytes)"},
+		Assumptions: []string{"the parser is driven like Engine.DataHandler (first error => CloseAndClean)", "retained bytes are measured by capacity at the allocator; the bound allows a factor 2 plus 4 KiB for allocator rounding"},
+	},
+	"C09": {
+		World: "stream", Level: "exploration", QuickS: 25, ThoroughS: 600,
+		Rule: "cases = handler programs over Header().Set/Add/Del, WriteHeader, Write, WriteString, ReadFrom, Flush, declared trailers set after the body, optional explicit Content-Length; write sizes biased to 0, 1 and to 64KiB +- head size; request version 1.0/1.1 with Connection variants; three of four cases fault-free (wire decoded by http.ReadResponse must equal the handler's intent: status, headers, trailers, body, nothing following, framing consistent with the version, every successful Write returns len(data), connection kept or closed as dictated), one of four with a transport write failure at the k-th write (narrow relaxation: error surfaced or connection closed, no panic); non-trivial = >= 2 body writes or a threshold-crossing write",
+		Real: []string{"nbhttp.Response, nbhttp.ServerProcessor.flushResponse, nbhttp.Parser (transformed real code)", "net/http as independent client parser"},
+		Stub: []string{"transport: in-memory connection with write-failure injection", "allocators: ownership tracker"},
+		Assumptions: []string{"handler intent follows the net/http ResponseWriter contract: headers are snapshotted at the first WriteHeader/Write/Flush, trailers are declared before and set after the body",
+			"handlers that write a body different from their explicit Content-Length, or a body with 204/304, are not generated"},
+	},
 	"C17": {
 		World: "core", Level: "exploration", QuickS: 40, ThoroughS: 900,
 		Rule: "same scenario as C01 with MaxWriteBufferSize M in 1..256KiB and write sizes placed around M and around the kernel capacity; oracle on the true backlog (accepted buffer bytes minus bytes the kernel model took): accepted => held <= M, refused => backlog+n > M, internal counter == true backlog whenever the connection mutex is free; non-trivial = a write landed within +-1 of the bound and a backlog formed",
